@@ -256,3 +256,12 @@ _R14 = {
 for _k, (_t, _l) in _R14.items():
     _a, _b, _c = CLAIMED[_k]
     CLAIMED[_k] = (_a + _t, _b + _l, _c)
+
+_R15 = {
+ "C11": ("; the fragment overlap counts the two flanks (FG clause)", ""),
+ "C15": ("; the cursor of the index look-up is per tied reference (CUR)", ""),
+ "C19": ("; slices.Compact on a sorted slice (CMP)", ""),
+}
+for _k, (_t, _l) in _R15.items():
+    _a, _b, _c = CLAIMED[_k]
+    CLAIMED[_k] = (_a + _t, _b + _l, _c)
